@@ -20,7 +20,7 @@ RULE = (
     "requested batches; distinct by (sequence class, p, verbose, folder, calls)."
 )
 ASSUMPTIONS = ["scripted values are kept a factor 1.02 away from the 0.5*10^-p rounding boundary; exact boundary values are not generated"]
-REQUIRED_COUNTERS = {"runs_with_a_history_reading_sampler": 60, "runs_with_signed_loss": 40, "runs_on_a_three_point_grid": 30, "numpy_integer_precision": 30, "continued_after_restore": 40, "runs": 200, "converged_inside": 60, "never_converged": 30, "no_precision": 10, "verbose_twins": 60, "folder_restores": 40,
+REQUIRED_COUNTERS = {"saving_folder_used_before_by_another_run": 30, "runs_with_a_history_reading_sampler": 60, "runs_with_signed_loss": 40, "runs_on_a_three_point_grid": 30, "numpy_integer_precision": 30, "continued_after_restore": 40, "runs": 200, "converged_inside": 60, "never_converged": 30, "no_precision": 10, "verbose_twins": 60, "folder_restores": 40,
                      "later_calls_after_convergence": 20}
 SHARDS = {"quick": 8, "thorough": 16}
 
@@ -127,6 +127,19 @@ def one_run(rng, ctx, out):
 
     verbose = bool(rng.random() < 0.5)
     folder = str(ctx.scratch() / "ck") if use_folder else None
+    if use_folder and rng.random() < 0.3:
+        # the saving folder was used before by an unrelated calibration (other loss, line-up, shapes)
+        try:
+            from vlib import calgen as CG
+            from vlib import gen as G2
+
+            other_cfg = CG.gen_config(rng, kinds=G2.HISTORY_FREE, n_samplers=2, max_bs=2)
+            with quiet():
+                CG.build_calibrator(other_cfg, folder=folder).calibrate(2)
+            c["saving_folder_used_before_by_another_run"] = c.get("saving_folder_used_before_by_another_run", 0) + 1
+            wit["saving_folder_used_before_by_another_run"] = True
+        except Exception:  # noqa: BLE001
+            pass
     try:
         cal, model, ran, rets = run(verbose, folder)
     except Exception as e:  # noqa: BLE001
